@@ -232,15 +232,25 @@ class Container:
         raise NotImplementedError
 
     def _checkForCrossReferences(self, memo=None):
-        if not self._checkedForCrossReferences:
-            if memo is None:
-                memo = set()
-            if any(x is self for x in memo):
-                raise ContainerException(f"cannot fill a tree that contains the same aggregator twice: {self}")
-            memo.add(self)
-            for child in self.children:
+        top = memo is None
+        if top:
+            if self._checkedForCrossReferences:
+                return
+            memo = {}
+        # by identity: hashing would walk (and, for a cycle, never leave) the whole tree
+        if id(self) in memo:
+            raise ContainerException(f"cannot fill a tree that contains the same aggregator twice: {self!r}")
+        memo[id(self)] = self
+        # the value template of a sparse container is never filled and may be shared freely
+        template = self.__dict__.get("value")
+        for child in self.children:
+            if child is not None and child is not template:
                 child._checkForCrossReferences(memo)
-            self._checkedForCrossReferences = True
+        if top:
+            # only now is the whole tree known to be free of repeats: a node marked any earlier would be
+            # skipped, and so missed, when it turns up again at a sibling position
+            for node in memo.values():
+                node._checkedForCrossReferences = True
 
     def toJsonFile(self, fileName):
         path = Path(fileName)
